@@ -85,7 +85,12 @@ def g1(ctx: Ctx):
 
 
 def _subscript_guarded(fn: ast.FunctionDef, ch: str, line: int) -> bool:
-    """`visited_children[k] if visited_children else ...` / inside `if visited_children:`."""
+    """`visited_children[k] if visited_children else ...` / inside `if visited_children:` / after `if not visited_children: return`."""
+    from .visitormodel import _is_empty_test
+
+    for st in fn.body:
+        if isinstance(st, ast.If) and _is_empty_test(st.test, ch) and st.body and isinstance(st.body[-1], (ast.Return, ast.Raise)) and st.lineno < line:
+            return True
     for n in walk_no_nested(fn):
         if isinstance(n, (ast.IfExp, ast.If)):
             t = n.test
